@@ -5,6 +5,7 @@
     frame for the same request.  Statements only (closed by [exact]), their
     pins and their assumptions. *)
 From RepeV Require Import Model.Route Proofs.RouteProofs.
+From RepeV Require Import Gen.Tables Proofs.TablesC01 Proofs.TablesMisc.
 
 (** on each of the four paths a request whose notify byte is not 1 is answered
     by exactly one frame (the step yields one), carrying its id and its query
@@ -313,3 +314,17 @@ Print Assumptions C03_offreader_list_equal.
 Print Assumptions C03_saturation_sheds.
 Print Assumptions C03_offreader_panic_contained.
 Print Assumptions C03_holds.
+
+(** constants of the model are the ones re-read from the Rust source on this run *)
+Theorem C03_source_tables :
+  agrees src_ErrorCode_VersionMismatch Route.EC_VERSION /\ agrees src_ErrorCode_InvalidQuery Route.EC_QUERY /\
+  agrees src_ErrorCode_InvalidBody Route.EC_BODY /\ agrees src_ErrorCode_ParseError Route.EC_PARSE /\
+  agrees src_ErrorCode_MethodNotFound Route.EC_NOTFOUND /\ agrees src_ErrorCode_ResourceExhausted Route.EC_EXHAUSTED /\
+  agrees src_ErrorCode_InternalError Route.EC_INTERNAL.
+Proof. exact c03_error_codes_agree. Qed.
+Check C03_source_tables :
+  agrees src_ErrorCode_VersionMismatch Route.EC_VERSION /\ agrees src_ErrorCode_InvalidQuery Route.EC_QUERY /\
+  agrees src_ErrorCode_InvalidBody Route.EC_BODY /\ agrees src_ErrorCode_ParseError Route.EC_PARSE /\
+  agrees src_ErrorCode_MethodNotFound Route.EC_NOTFOUND /\ agrees src_ErrorCode_ResourceExhausted Route.EC_EXHAUSTED /\
+  agrees src_ErrorCode_InternalError Route.EC_INTERNAL.
+Print Assumptions C03_source_tables.
